@@ -242,6 +242,16 @@ def run_schedule(world, program, sc):
     return (tuple(tuple(o) for o in outcomes), world.final_state()), hung
 
 
+def _cooperative(lock, depth=0):
+    """The registry's lock is the cooperative shim, or a composite (e.g. a reader/writer lock) all of whose primitive locks are."""
+    if type(lock).__name__ == "CoopLock":
+        return True
+    if depth >= 2 or not hasattr(lock, "__dict__"):
+        return False
+    prims = [v for v in vars(lock).values() if "lock" in type(v).__name__.lower() or hasattr(v, "acquire")]
+    return bool(prims) and all(_cooperative(v, depth + 1) for v in prims)
+
+
 def run(spec, out):
     from .. import sched as T
 
@@ -250,8 +260,8 @@ def run(spec, out):
     nline, nstart = T.instrument()
     out.count("instrumented_line_codeobjects", nline)
     out.count("instrumented_start_codeobjects", nstart)
-    if type(world.reg.use_lock).__name__ != "CoopLock":
-        out.inconclusive("registry.use_lock is not the cooperative shim (lock shim not installed before einx import)")
+    if not _cooperative(world.reg.use_lock):
+        out.inconclusive("registry.use_lock is not built from the cooperative shim (lock shim not installed before einx import)")
         return
     fixed = fixed_programs()
     progs = []
